@@ -408,7 +408,9 @@ impl FmtArgument {
 impl Parse for FmtArgument {
     fn parse(input: ParseStream) -> syn::Result<Self> {
         Ok(Self {
-            alias: (input.peek(syn::Ident) && input.peek2(token::Eq))
+            alias: (input.peek(syn::Ident)
+                && input.peek2(token::Eq)
+                && !input.peek2(token::EqEq))
                 .then(|| Ok::<_, syn::Error>((input.parse()?, input.parse()?)))
                 .transpose()?,
             expr: input.parse()?,
